@@ -286,6 +286,25 @@ def run(tier, seed):
             for c in ih.calls("memcmp"):
                 rep.check(rid, Mi.match(nlen, c.ops[2], {}) is not None, "the names are compared over the envelope's name length", c.where(), None, function=ih.cname, obj="memcmp-len")
 
+        # ---- R9 parent directories ---------------------------------------------------------------------------------------------
+        rid = rep.rule("R9", "the CLI extracts a member only after make_parent_directories(name) succeeded for the very name it hands to lha_reader_extract "
+                             "(the only place the w=DIR prefix and missing parents are created)", 1)
+        nsite = 0
+        for f in mod.defined():
+            if not f.file.startswith("src/") and "/src/" not in f.file and not f.file.endswith(("extract.c", "main.c", "list.c", "filter.c")):
+                continue
+            M, F = Matcher(f), ctx.facts(f)
+            for c in f.calls("lha_reader_extract"):
+                if len(c.ops) < 2 or is_const(M.strip(c.ops[1])) or M.strip(c.ops[1])[0] == "null":
+                    continue            # NULL name: the library builds the path itself (not the CLI's way)
+                nsite += 1
+                e = M.find_fact(("ne", ("call", "make_parent_directories", [("bind", "n")]), 0), F.at_inst(c))[1]
+                ok = e is not None and M.strip(e["n"]) == M.strip(c.ops[1])
+                rep.check(rid, ok, "%s: lha_reader_extract(reader, name, ...) behind make_parent_directories(name) != 0" % f.cname, c.where(),
+                          None if ok else ("the extraction is reachable without the parents of its output name having been created: with w=DIR (and any option that skips the step) "
+                                           "every member fails and the tree is not reproduced"), function=f.cname, obj="parents")
+        rep.check(rid, nsite >= 1, "an extraction site with a name found in the CLI", "src/extract.c", "%d" % nsite, function="extract_archived_file", obj="sites")
+
         # ---- R8 wildcard matcher -------------------------------------------------------------------------------------------------
         rid = rep.rule("R8", "match_glob conforms to the glob transducer: '*' tries the rest of the pattern at the same string position and else skips one string byte; "
                              "'?' or an equal stored byte advances both; anything else is a mismatch; at the end of the string trailing '*'s are passed and the verdict is pattern == NUL", 6)
